@@ -39,7 +39,7 @@ import (
 )
 
 const (
-	NS          = "default"
+	DefaultNS   = "default"
 	RolloutName = "rollouts-demo"
 	WorkloadNm  = "demo"
 	SvcName     = "echo"
@@ -71,9 +71,15 @@ type Config struct {
 	Threshold string    `json:"threshold,omitempty"` // failureThreshold
 	NoCanarySvc bool    `json:"noCanarySvc,omitempty"`
 	TRRef     bool      `json:"trRef,omitempty"` // use a TrafficRouting CR instead of inline trafficRoutings
+	HPA       bool      `json:"hpa,omitempty"`   // a HorizontalPodAutoscaler targets the workload (blue-green disables / restores it)
 	Queue     bool      `json:"queue,omitempty"` // reconciles are enabled only when the controller's key is pending (real wake-ups)
 	Actions   []string  `json:"actions"`         // user / disturbance actions enabled (env + controllers are always on)
 	Budget    map[string]int `json:"budget,omitempty"` // per action-class budgets
+	// Peer: a second, independent scenario (its own workload, Services and Rollout, SAME object names) in
+	// namespace PeerNS of the same cluster, reconciled by the same controller instances (C19). Its actions are
+	// prefixed "b:", the first scenario's "a:"; tick and env.gc are cluster-wide.
+	Peer   *Config `json:"peer,omitempty"`
+	PeerNS string  `json:"peerNS,omitempty"`
 }
 
 // World is one simulated cluster with the real controllers wired to it.
@@ -88,6 +94,17 @@ type World struct {
 	Ghost  Ghost
 	Q      Queues
 	wake   *wakeHandlers
+	NS     string
+	Peer   *World // second scenario sharing store, controllers and process-wide helpers
+	parent *World // set on the peer
+	own    map[string]bool // keys this scenario's objects use in the process-wide grace map
+}
+
+func (w *World) top() *World {
+	if w.parent != nil {
+		return w.parent
+	}
+	return w
 }
 
 // Ghost is history the properties refer to but the cluster does not store.
@@ -170,12 +187,38 @@ func NewWorld(cfg Config) (*World, error) {
 	InitProcess()
 	grace.ResetExpectations()
 	scheme := GlobalScheme()
-	w := &World{Cfg: cfg, Scheme: scheme, S: NewStore(scheme)}
+	w := &World{Cfg: cfg, Scheme: scheme, S: NewStore(scheme), NS: DefaultNS}
 	rec := record.NewFakeRecorder(0) // unbuffered channel; Eventf would block, so use a discarding recorder
 	_ = rec
 	w.Ro = roctrl.NewReconcilerForVerif(w.S, scheme, discardRecorder{})
 	w.Br = brctrl.NewReconcilerForVerif(w.S, scheme, discardRecorder{})
 	w.Tr = trctrl.NewReconcilerForVerif(w.S, scheme, discardRecorder{})
+	if err := w.populate(); err != nil {
+		return nil, err
+	}
+	if cfg.Peer != nil {
+		ns := cfg.PeerNS
+		if ns == "" {
+			ns = "other"
+		}
+		p := &World{Cfg: *cfg.Peer, Scheme: scheme, S: w.S, NS: ns, Ro: w.Ro, Br: w.Br, Tr: w.Tr, parent: w}
+		if err := p.populate(); err != nil {
+			return nil, err
+		}
+		w.Peer = p
+	}
+	return w, nil
+}
+
+func (w *World) populate() error {
+	cfg := w.Cfg
+	seen := false
+	for _, ns := range knownNS {
+		seen = seen || ns == w.NS
+	}
+	if !seen {
+		knownNS = append(knownNS, w.NS)
+	}
 	w.Ghost = Ghost{Used: map[string]int{}, Rev: 1}
 	switch cfg.Kind + "/" + cfg.Style {
 	case "CloneSet/partition":
@@ -186,24 +229,34 @@ func NewWorld(cfg Config) (*World, error) {
 		w.WL = &partEnv{a: astsAdapter{}}
 	case "DaemonSet/partition":
 		w.WL = &partEnv{a: dsAdapter{}}
+	case "Deployment/canary", "Deployment/bluegreen":
+		w.WL = &depEnv{style: cfg.Style}
 	default:
-		return nil, fmt.Errorf("unsupported family %s/%s", cfg.Kind, cfg.Style)
+		return fmt.Errorf("unsupported family %s/%s", cfg.Kind, cfg.Style)
 	}
 	w.S.BeginAction("fixture")
 	if err := w.fixtureCommon(); err != nil {
-		return nil, err
+		return err
 	}
 	if err := w.WL.Fixture(w); err != nil {
-		return nil, err
+		return err
 	}
 	if err := w.fixtureRollout(); err != nil {
-		return nil, err
+		return err
 	}
 	w.Ghost.Orig = w.userOwned()
 	w.Ghost.Created = true
 	w.Q = Queues{RoPending: true} // the Rollout was just created
 	w.S.BeginAction("")
-	return w, nil
+	w.own = map[string]bool{w.NS + "/" + SvcName + "-canary": true}
+	for _, k := range w.S.Keys() {
+		if k.Namespace == w.NS && (k.Kind == "Rollout" || (k.Kind == "Service" && k.Name == SvcName)) {
+			if uid, ok := metaOf(toMap(w.S.Raw(k)))["uid"].(string); ok {
+				w.own[uid] = true
+			}
+		}
+	}
+	return nil
 }
 
 type discardRecorder struct{}
@@ -255,7 +308,7 @@ func (w *World) fixtureCommon() error {
 		return nil
 	}
 	svc := &corev1.Service{
-		ObjectMeta: metav1.ObjectMeta{Namespace: NS, Name: SvcName},
+		ObjectMeta: metav1.ObjectMeta{Namespace: w.NS, Name: SvcName},
 		Spec: corev1.ServiceSpec{
 			Selector: map[string]string{"app": WorkloadNm},
 			Ports:    []corev1.ServicePort{{Name: "http", Port: 80, TargetPort: intstr.FromInt(8080)}},
@@ -267,7 +320,7 @@ func (w *World) fixtureCommon() error {
 	if cls := w.ingressClass(); cls != "" {
 		pt := netv1.PathTypePrefix
 		ing := &netv1.Ingress{
-			ObjectMeta: metav1.ObjectMeta{Namespace: NS, Name: SvcName, Annotations: map[string]string{"kubernetes.io/ingress.class": cls}},
+			ObjectMeta: metav1.ObjectMeta{Namespace: w.NS, Name: SvcName, Annotations: map[string]string{"kubernetes.io/ingress.class": cls}},
 			Spec: netv1.IngressSpec{Rules: []netv1.IngressRule{
 				{Host: "echo.example.com", IngressRuleValue: netv1.IngressRuleValue{HTTP: &netv1.HTTPIngressRuleValue{Paths: []netv1.HTTPIngressPath{
 					{Path: "/", PathType: &pt, Backend: netv1.IngressBackend{Service: &netv1.IngressServiceBackend{Name: SvcName, Port: netv1.ServiceBackendPort{Number: 80}}}},
@@ -284,7 +337,7 @@ func (w *World) fixtureCommon() error {
 		port := gatewayv1beta1.PortNumber(80)
 		pm := gatewayv1beta1.PathMatchPathPrefix
 		route := &gatewayv1beta1.HTTPRoute{
-			ObjectMeta: metav1.ObjectMeta{Namespace: NS, Name: SvcName},
+			ObjectMeta: metav1.ObjectMeta{Namespace: w.NS, Name: SvcName},
 			Spec: gatewayv1beta1.HTTPRouteSpec{Rules: []gatewayv1beta1.HTTPRouteRule{
 				{
 					Matches: []gatewayv1beta1.HTTPRouteMatch{{Path: &gatewayv1beta1.HTTPPathMatch{Type: &pm, Value: utilpointer.String("/")}}},
@@ -384,7 +437,7 @@ func (w *World) workloadRef() v1beta1.ObjectRef {
 
 func (w *World) fixtureRollout() error {
 	ro := &v1beta1.Rollout{
-		ObjectMeta: metav1.ObjectMeta{Namespace: NS, Name: RolloutName},
+		ObjectMeta: metav1.ObjectMeta{Namespace: w.NS, Name: RolloutName},
 		Spec:       v1beta1.RolloutSpec{WorkloadRef: w.workloadRef()},
 	}
 	var thr *intstr.IntOrString
@@ -420,13 +473,37 @@ type Result struct {
 	FaultFired bool                     `json:"faultFired,omitempty"`
 }
 
-func roReq() ctrl.Request {
-	return ctrl.Request{NamespacedName: types.NamespacedName{Namespace: NS, Name: RolloutName}}
+func (w *World) roReq() ctrl.Request {
+	return ctrl.Request{NamespacedName: types.NamespacedName{Namespace: w.NS, Name: RolloutName}}
 }
 
 // Do executes one action. Controller actions may carry a fault suffix: "ro!crash:2", "br!err:5",
 // "ro!errafter:3", "ro!conflict:1".
 func (w *World) Do(action string, captureMids bool) (res Result) {
+	if w.Peer != nil {
+		switch {
+		case strings.HasPrefix(action, "b:"):
+			res = w.Peer.Do(action[2:], captureMids)
+			res.Action = action
+			return res
+		case strings.HasPrefix(action, "a:"):
+			res = w.doOne(action[2:], captureMids)
+			res.Action = action
+			return res
+		}
+		// cluster-wide actions (tick, env.gc): the peer's queue timers fire as well
+		if action == "tick" {
+			w.Peer.Q.RoPending, w.Peer.Q.BrPending = w.Peer.Q.RoPending || w.Peer.Q.RoTimer, w.Peer.Q.BrPending || w.Peer.Q.BrTimer
+			w.Peer.Q.RoTimer, w.Peer.Q.BrTimer = false, false
+		}
+		res = w.doOne(action, captureMids)
+		w.Peer.afterAction(action)
+		return res
+	}
+	return w.doOne(action, captureMids)
+}
+
+func (w *World) doOne(action string, captureMids bool) (res Result) {
 	res.Action = action
 	base, fault := action, ""
 	if i := strings.Index(action, "!"); i >= 0 {
@@ -439,7 +516,7 @@ func (w *World) Do(action string, captureMids bool) (res Result) {
 		w.S.Fault = FaultPlan{Mode: parts[0], N: n}
 	}
 	if captureMids {
-		w.S.OnWrite = func(s *Store) { res.Mids = append(res.Mids, w.Project()) }
+		w.S.OnWrite = func(s *Store) { res.Mids = append(res.Mids, w.top().Project()) }
 	} else {
 		w.S.OnWrite = nil
 	}
@@ -479,13 +556,13 @@ func (w *World) Do(action string, captureMids bool) (res Result) {
 	case base == "ro":
 		reconciled = "ro"
 		w.Q.RoPending = false
-		rr, err = w.Ro.Reconcile(context.TODO(), roReq())
+		rr, err = w.Ro.Reconcile(context.TODO(), w.roReq())
 	case base == "br":
 		reconciled = "br"
 		w.Q.BrPending = false
-		rr, err = w.Br.Reconcile(context.TODO(), roReq())
+		rr, err = w.Br.Reconcile(context.TODO(), w.roReq())
 	case base == "tr":
-		rr, err = w.Tr.Reconcile(context.TODO(), ctrl.Request{NamespacedName: types.NamespacedName{Namespace: NS, Name: "tr-demo"}})
+		rr, err = w.Tr.Reconcile(context.TODO(), ctrl.Request{NamespacedName: types.NamespacedName{Namespace: w.NS, Name: "tr-demo"}})
 	case base == "tick":
 		w.S.AgeTimestamps(TickAge)
 		grace.AgeForVerif(TickAge)
@@ -533,10 +610,10 @@ func (w *World) LoseMemory() {
 func (w *World) afterAction(base string) {
 	br := &v1beta1.BatchRelease{}
 	ro := &v1beta1.Rollout{}
-	if w.S.Load(NS, RolloutName, br) {
+	if w.S.Load(w.NS, RolloutName, br) {
 		w.Ghost.BrEver = true
 	}
-	if !w.S.Load(NS, RolloutName, ro) {
+	if !w.S.Load(w.NS, RolloutName, ro) {
 		return
 	}
 	key := canaryRevisionOf(ro) + "|" + ro.Annotations["rollouts.kruise.io/hash"]
@@ -544,7 +621,7 @@ func (w *World) afterAction(base string) {
 		w.Ghost.ReadyRev = key
 		w.Ghost.ReadySteps = nil
 	}
-	if w.S.Load(NS, RolloutName, br) {
+	if w.S.Load(w.NS, RolloutName, br) {
 		w.Ghost.BrEver = true
 		if br.Status.CanaryStatus.CurrentBatchState == v1beta1.ReadyBatchState && br.Status.Phase == v1beta1.RolloutPhaseProgressing &&
 			br.Status.ObservedGeneration == br.Generation && RevOf(br.Status.UpdateRevision) == RevOf(canaryRevisionOf(ro)) &&
@@ -650,7 +727,7 @@ func (w *World) budgetLeft(class string) bool {
 
 func (w *World) getRollout() *v1beta1.Rollout {
 	ro := &v1beta1.Rollout{}
-	if !w.S.Load(NS, RolloutName, ro) {
+	if !w.S.Load(w.NS, RolloutName, ro) {
 		return nil
 	}
 	return ro
@@ -704,13 +781,13 @@ func (w *World) userDo(a string) error {
 		}
 		ro.Spec.Disabled = a == "user.disable"
 		return w.S.Put(ro)
-	case a == "user.delete":
+	case a == "user.delete" || a == "user.deleteidle":
 		ro := w.getRollout()
 		if ro == nil {
 			return nil
 		}
 		return w.S.Delete(context.TODO(), ro)
-	case a == "user.editplan":
+	case a == "user.editplan" || a == "user.editidle":
 		ro := w.getRollout()
 		if ro == nil {
 			return nil
@@ -747,13 +824,35 @@ func (w *World) CurrentSteps() []v1beta1.CanaryStep {
 
 // Enabled lists the actions that can be taken in the current state.
 func (w *World) Enabled() []string {
+	if w.Peer == nil {
+		return w.enabledOne()
+	}
+	var out []string
+	global := map[string]bool{}
+	for i, x := range []*World{w, w.Peer} {
+		for _, a := range x.enabledOne() {
+			if a == "tick" || a == "env.gc" {
+				global[a] = true
+				continue
+			}
+			out = append(out, string("ab"[i])+":"+a)
+		}
+	}
+	for a := range global {
+		out = append(out, a)
+	}
+	sort.Strings(out)
+	return out
+}
+
+func (w *World) enabledOne() []string {
 	var out []string
 	ro := w.getRollout()
 	if ro != nil && (!w.Cfg.Queue || w.Q.RoPending) {
 		out = append(out, "ro")
 	}
 	br := &v1beta1.BatchRelease{}
-	if w.S.Load(NS, RolloutName, br) && (!w.Cfg.Queue || w.Q.BrPending) {
+	if w.S.Load(w.NS, RolloutName, br) && (!w.Cfg.Queue || w.Q.BrPending) {
 		out = append(out, "br")
 	}
 	out = append(out, w.WL.EnvActions(w)...)
@@ -820,6 +919,10 @@ func (w *World) userEnabled(a string, ro *v1beta1.Rollout) bool {
 		return !deleting && w.Ghost.Rev >= 2
 	case a == "user.editplan":
 		return inProgress && len(w.Cfg.Steps2) > 0
+	case a == "user.editidle": // the plan is edited while nothing is being released (validation allows any change then)
+		return ro.Status.Phase == v1beta1.RolloutPhaseHealthy && !deleting && len(w.Cfg.Steps2) > 0
+	case a == "user.deleteidle":
+		return ro.Status.Phase == v1beta1.RolloutPhaseHealthy && !deleting
 	case strings.HasPrefix(a, "user.jump:"):
 		if !inProgress || sub == nil {
 			return false
@@ -871,9 +974,28 @@ type WorldSnapshot struct {
 	Mem   MemSnapshot
 	Ghost Ghost
 	Q     Queues
+	Peer  *WorldSnapshot
 }
 
 func (w *World) Snapshot() *WorldSnapshot {
+	sn := w.snapshotOne()
+	if w.Peer != nil {
+		sn.Peer = &WorldSnapshot{Ghost: w.Peer.snapshotGhost(), Q: w.Peer.Q}
+	}
+	return sn
+}
+
+func (w *World) snapshotGhost() Ghost {
+	g := w.Ghost
+	g.Used = map[string]int{}
+	for k, v := range w.Ghost.Used {
+		g.Used[k] = v
+	}
+	g.ReadySteps = append([]int{}, w.Ghost.ReadySteps...)
+	return g
+}
+
+func (w *World) snapshotOne() *WorldSnapshot {
 	g := w.Ghost
 	g.Used = map[string]int{}
 	for k, v := range w.Ghost.Used {
@@ -895,6 +1017,16 @@ func (w *World) Restore(sn *WorldSnapshot) {
 	g.ReadySteps = append([]int{}, sn.Ghost.ReadySteps...)
 	w.Ghost = g
 	w.Q = sn.Q
+	if w.Peer != nil && sn.Peer != nil {
+		pg := sn.Peer.Ghost
+		pg.Used = map[string]int{}
+		for k, v := range sn.Peer.Ghost.Used {
+			pg.Used[k] = v
+		}
+		pg.ReadySteps = append([]int{}, sn.Peer.Ghost.ReadySteps...)
+		w.Peer.Ghost = pg
+		w.Peer.Q = sn.Peer.Q
+	}
 }
 
 var _ = v1alpha1.RolloutPhaseHealthy
